@@ -959,7 +959,14 @@ fn normalize_input_limb_bound_with_offset(
 impl<BE: Backend> GLWEAdd for Module<BE> where Self: ModuleN + VecZnxAddInto + VecZnxCopy + VecZnxAddAssign + VecZnxZero {}
 
 impl<BE: Backend> GLWESub for Module<BE> where
-    Self: ModuleN + VecZnxSub + VecZnxCopy + VecZnxNegate + VecZnxZero + VecZnxSubAssign + VecZnxSubNegateAssign
+    Self: ModuleN
+        + VecZnxSub
+        + VecZnxCopy
+        + VecZnxNegate
+        + VecZnxNegateAssign
+        + VecZnxZero
+        + VecZnxSubAssign
+        + VecZnxSubNegateAssign
 {
 }
 
